@@ -16,6 +16,7 @@ import Dtn7.Model.NodeSched
 import Dtn7.Lemmas.NodeC05
 import Dtn7.Lemmas.NodeDirect
 import Dtn7.Lemmas.NodeSched
+import Dtn7.Lemmas.NodeSkip
 import Dtn7.Gen.C05
 
 namespace Dtn7.Props.C05
@@ -31,18 +32,49 @@ def isSubseq : List String → List String → Bool
 
 theorem gen_no_extraction_failure : Dtn7.Gen.C05.extractionFailures = [] := by decide
 
-/-- The code variant the theorems below are about (`Cfg.seqFirst`, `expiryNow`, `dtlsrFail`, `holdFix`):
-`SendBundle` lets the IdKeeper assign the sequence number before it creates the descriptor (D17 repaired,
-/repo 9fa781b; `transmit` no longer touches the IdKeeper); `calcExpirationDate` counts from now for clock-less bundles (D22 repaired); DTLSR records
-failures; `dispatching` keeps a refused bundle contraindicated. The driver reads the same facts. -/
+/-- The code variant the theorems below are about (`Cfg.seqFirst`, `skipStored`, `expiryNow`, `dtlsrFail`,
+`holdFix`): `SendBundle` lets the IdKeeper assign the sequence number before it creates the descriptor (D17
+repaired, /repo 9fa781b; `transmit` no longer touches the IdKeeper) and skips the numbers of bundles that
+are still stored (/repo 43cf7bc); `calcExpirationDate` counts from now for clock-less bundles (D22
+repaired); DTLSR records failures; `dispatching` keeps a refused bundle contraindicated. The driver reads
+the same facts. -/
 theorem gen_variant :
-    Dtn7.Gen.C05.seqAssignedFirst = true ∧ Dtn7.Gen.C05.transmitAssignsSeq = false ∧
+    Dtn7.Gen.C05.seqAssignedFirst = true ∧ Dtn7.Gen.C05.sendBundleSkipsStored = true ∧
+    Dtn7.Gen.C05.transmitAssignsSeq = false ∧
     Dtn7.Gen.C05.expiryCountsFromNow = true ∧ Dtn7.Gen.C05.dtlsrReportsFailure = true ∧
     Dtn7.Gen.C05.dispatchingHoldsRefused = true := by decide
 
+set_option maxRecDepth 16384 in
+/-- `SendBundle` and `IdKeeper.updateUnless` (`Dtn7.Node.sendBundle`, `assignSeq`, `idkUpdate`, `idkSkip`):
+the first statement assigns the number; the "is this ID stored" question goes to the store; the loop that
+takes the next number while the ID is taken sits inside the IdKeeper's lock bracket. -/
+theorem gen_send_bundle :
+    Dtn7.Gen.C05.sendBundleSkeleton =
+      ["c.idKeeper.updateUnless(bndl, func(bid bpv7.BundleID) bool { _, err := c.store.QueryId(bid.Scrub()) return err == nil })",
+       "if c.signPriv != nil && bndl.IsAdministrativeRecord()",
+       "  c.sendBundleAttachSignature(bndl)",
+       "bp := NewBundleDescriptorFromBundle(*bndl, c.store)",
+       "c.routing.NotifyNewBundle(bp)",
+       "c.transmit(bp)"] ∧
+    Dtn7.Gen.C05.updateUnlessSkeleton =
+      ["var tpl = newIdTuple(bndl)",
+       "idk.mutex.Lock()",
+       "if state, ok := idk.data[tpl]; ok",
+       "  idk.data[tpl] = state + 1",
+       "else",
+       "  idk.data[tpl] = 0",
+       "bndl.PrimaryBlock.CreationTimestamp[1] = idk.data[tpl]",
+       "for ; taken != nil && taken(bndl.ID());",
+       "  idk.data[tpl] = idk.data[tpl] + 1",
+       "  bndl.PrimaryBlock.CreationTimestamp[1] = idk.data[tpl]",
+       "idk.mutex.Unlock()",
+       "if idk.autoClean",
+       "  idk.clean()"] := by decide
+
 /-- Call order of the pipeline as `Dtn7.Node.sendBundle / transmit / receive / forward` mirror it. -/
 theorem gen_call_order :
-    isSubseq ["c.idKeeper.update", "NewBundleDescriptorFromBundle", "c.routing.NotifyNewBundle", "c.transmit"]
+    isSubseq ["c.idKeeper.updateUnless", "c.store.QueryId", "NewBundleDescriptorFromBundle", "c.routing.NotifyNewBundle",
+        "c.transmit"]
       Dtn7.Gen.C05.sendBundleCalls = true ∧
     isSubseq ["bp.AddConstraint", "bp.Sync", "c.HasEndpoint", "c.bundleDeletion", "c.dispatching"]
       Dtn7.Gen.C05.transmitCalls = true ∧
@@ -142,9 +174,10 @@ theorem retained_until_sent_partial (c : Cfg) (hfix : c.holdFix = true) (hexp : 
     firstFail retainedFail c (SpecSt.init now) 0 ((trace env (init c now) h).map obsOf) = none :=
   retained_run c hfix hexp env h [] _ _ 0 (by simpa using hdom) (rinv_init c now)
 
-/-- The class excluded by `Domain` (D17, other builder's fix): two submissions with one source, creation
-time and sequence number 0 share a store key; the second bundle is sent from memory to the peers that
-happen to be there and is never stored. -/
+/-- The class excluded by `Domain`, in the code before the D17 repair (`seqFirst = false`): two submissions
+with one source, creation time and sequence number 0 share a store key; the second bundle is sent from
+memory to the peers that happen to be there and is never stored. With the code as it is, the step a
+submission takes is covered for every state by `submit_retained_any_state` below. -/
 theorem same_ms_lost_witness :
     let c : Cfg := { self := 1, algo := .epidemic, mule := false, sensorNodes := [], sprayL := 3, bcast := ⟨999, 0⟩,
                      seqFirst := false, skipStored := false, expiryNow := true, dtlsrFail := true, holdFix := true }
@@ -248,6 +281,58 @@ theorem zero_time_swept_witness :
       = some (1, "retained-lost-zero-time-clean") := by
   decide
 
+/-- **Every submission, in every state** (`submit_retained_any_state`): for the code as it is (sequence
+number first, stored numbers skipped, refused dispatching holds the bundle) and EVERY node state — any
+store, any IdKeeper state, in particular the empty IdKeeper after a restart while bundles numbered before
+the restart still wait — a submitted bundle (source of this node, destination elsewhere, not refused
+for cause) is, after `SendBundle`, either handed successfully to a convergence layer or in the store under
+the ID the node assigned to it, marked pending, with the expiry of its lifetime. No domain hypothesis:
+this is the step that `retained_until_sent_partial` could only take for histories without ID collisions. -/
+theorem submit_retained_any_state (env : Env) (b : Bundle) (n : Node) (hfix : n.cfg.holdFix = true)
+    (hseq : n.cfg.seqFirst = true) (hskip : n.cfg.skipStored = true)
+    (hsrc : hasEndpoint n.cfg b.src = true) (hf : forwardable n.now b) (hdst : hasEndpoint n.cfg b.dst = false) :
+    OkSent (sendBundle env b n).2 (assignSeq b n).1 ∨
+      Holds (sendBundle env b n).1 (assignSeq b n).1 (calcExpires n.cfg n.now (assignSeq b n).1) :=
+  sendBundle_kept_any env b n hfix hseq hskip hsrc hf hdst
+
+/-- **The ID the node assigns is free** (`assigned_id_is_free`): for every store and every IdKeeper state
+the loop of `SendBundle`/`IdKeeper.updateUnless` ends — within `store.length + 1` rounds — at a sequence
+number whose bundle ID is not in the store; only the sequence number of the bundle and the IdKeeper
+change. -/
+theorem assigned_id_is_free (b : Bundle) (n : Node) (hskip : n.cfg.skipStored = true) :
+    (∃ q, (assignSeq b n).1 = { b with seq := q }) ∧ (∃ x, (assignSeq b n).2 = n.setIdk x) ∧
+    n.store.get (assignSeq b n).1.key = none :=
+  assignSeq_free b n hskip
+
+/-- The code before /repo 43cf7bc (`skipStored = false`): a clock-less application submits a bundle that
+has to wait, the node restarts (the IdKeeper starts from 0 again), the application submits another
+bundle: it gets the ID of the first one, is never stored, and is lost. -/
+theorem restart_same_id_lost_witness :
+    let c : Cfg := { self := 1, algo := .epidemic, mule := false, sensorNodes := [], sprayL := 3, bcast := ⟨999, 0⟩,
+                     seqFirst := true, skipStored := false, expiryNow := true, dtlsrFail := true, holdFix := true }
+    let env : Env := { sendOk := fun _ _ _ => true, prefer := fun _ _ => [], cand := fun _ _ => false }
+    let b1 : Bundle := { tag := 1, src := ⟨1, 0⟩, ts := 0, seq := 0, dst := ⟨5, 0⟩, prev := none, lifetime := 3600000,
+                         hop := none, age := some 0, delBlock := false, bsCopies := none }
+    let b2 : Bundle := { b1 with tag := 2, dst := ⟨6, 0⟩ }
+    firstFail retainedFail c (SpecSt.init 1000) 0
+      ((trace env (init c 1000) [.submit b1, .restart, .submit b2]).map obsOf)
+      = some (2, "retained-lost-same-id-submit") := by
+  decide
+
+/-- … and with the repaired code both bundles wait in the store, under the numbers 0 and 1. -/
+theorem restart_same_id_kept_example :
+    let c : Cfg := { self := 1, algo := .epidemic, mule := false, sensorNodes := [], sprayL := 3, bcast := ⟨999, 0⟩,
+                     seqFirst := true, skipStored := true, expiryNow := true, dtlsrFail := true, holdFix := true }
+    let env : Env := { sendOk := fun _ _ _ => true, prefer := fun _ _ => [], cand := fun _ _ => false }
+    let b1 : Bundle := { tag := 1, src := ⟨1, 0⟩, ts := 0, seq := 0, dst := ⟨5, 0⟩, prev := none, lifetime := 3600000,
+                         hop := none, age := some 0, delBlock := false, bsCopies := none }
+    let b2 : Bundle := { b1 with tag := 2, dst := ⟨6, 0⟩ }
+    let tr := (trace env (init c 1000) [.submit b1, .restart, .submit b2, .retryTick]).map obsOf
+    firstFail retainedFail c (SpecSt.init 1000) 0 tr = none ∧
+    (tr.map fun o => o.view.items.map fun i => (i.key.seq, i.bundle.tag, i.pending))
+      = [[(0, 1, true)], [(0, 1, true)], [(0, 1, true), (1, 2, true)], [(0, 1, true), (1, 2, true)]] := by
+  decide
+
 /-- **Concurrent failures** (`concurrent_failures_both_recorded`): with the mutex, for every number of
 failing transmissions and EVERY schedule of the failure reports' micro-steps: once all reports are done,
 no failed peer is left in the sent list and nothing else was removed. -/
@@ -291,6 +376,18 @@ example :
       = [([(1, true)], 0), ([(1, true), (2, true)], 0), ([(1, true), (2, true)], 0),
          ([(1, true), (2, true)], 1), ([(1, true), (2, true)], 1), ([(1, true), (2, true)], 0),
          ([(1, true), (2, true)], 0), ([(1, true), (2, true)], 2), ([(1, true)], 3)] := by
+  decide
+
+/-- The hypotheses of `submit_retained_any_state` hold in a state reached by a restart with a waiting
+bundle of the same source and creation time, and the assigned number is 1. -/
+example :
+    let c : Cfg := { self := 1, algo := .epidemic, mule := false, sensorNodes := [], sprayL := 3, bcast := ⟨999, 0⟩,
+                     seqFirst := true, skipStored := true, expiryNow := true, dtlsrFail := true, holdFix := true }
+    let env : Env := { sendOk := fun _ _ _ => true, prefer := fun _ _ => [], cand := fun _ _ => false }
+    let n := run env (init c 1000) [.submit ex_b1, .restart]
+    n.cfg.holdFix = true ∧ n.cfg.seqFirst = true ∧ n.cfg.skipStored = true ∧ hasEndpoint n.cfg ex_b1.src = true ∧
+    hopExceeded ex_b1 = false ∧ lifetimeExceeded n.now ex_b1 = false ∧ ageExpired ex_b1 = false ∧
+    hasEndpoint n.cfg ex_b1.dst = false ∧ (assignSeq ex_b1 n).1.seq = 1 ∧ n.idk = [] ∧ n.store.length = 1 := by
   decide
 
 example : lifetimeOk 2000 1000 ex_b2 = true := by decide
